@@ -35,8 +35,9 @@ class full_model_contract:
 
     @staticmethod
     def ensures(result, hdd_bp, hdd_beta, hdd_k, cdd_bp, cdd_beta, cdd_k, intercept, T_fit_bnds, T):
-        return at(result) == curve7(hdd_bp, hdd_beta, hdd_k, cdd_bp, cdd_beta, cdd_k, intercept,
-                                    T_fit_bnds[0], T_fit_bnds[1], at(T))
+        return And(length(result) == length(T),
+                   at(result) == curve7(hdd_bp, hdd_beta, hdd_k, cdd_bp, cdd_beta, cdd_k, intercept,
+                                        T_fit_bnds[0], T_fit_bnds[1], at(T)))
 
 
 def mk_submodel(shape, hdd_bp, hdd_beta, hdd_k, cdd_bp, cdd_beta, cdd_k, intercept, T_min, T_max, T_min_seg,
